@@ -71,7 +71,7 @@ def build_ops(rng, spec):
 def run(res, replay=None):
     rng = random.Random(res.seed)
     res.rule = ('sfs stream: random single-locus configurations (n<=4, thorough n<=5; 1-2 demes; three models; 1-3 epochs; '
-                'with/without end time), block-counting space: sfs.mean, fsfs.mean, sfs.var, sfs.m2, full sfs.cov and '
+                'with/without end time; multiple-merger cases preceded in the same process by another parameterisation of the same model family), block-counting space: sfs.mean, fsfs.mean, sfs.var, sfs.m2, full sfs.cov and '
                 'sfs.corr matrices and one explicit cross moment, each entry compared with the Gallina model evaluated in '
                 'binary64 (1e-7 relative for means, 1e-6 of the raw-moment scale otherwise), layout (zeros at 0 and n, bin i '
                 'at index i) included; non-trivial = some entry non-zero; distinct = distinct (configuration, statistic)')
@@ -89,6 +89,16 @@ def run(res, replay=None):
     items = [dict(spec=s, lc=False, ops=[o for o in build_ops(rng, s)
                                           if not s.get('start_time') or o['py'].get('path') in ('sfs.mean', 'fsfs.mean')])
              for s in specs]
+    # the same model family with OTHER parameters evaluated earlier in the same process
+    if not replay:
+        for j, it in enumerate(items[:]):
+            m = it['spec']['model']
+            if m['kind'] == 'kingman' or it['spec'].get('start_time'):
+                continue
+            other = dict(m, **({'alpha': 1.375} if m['kind'] == 'beta' else {'psi': 0.625 if m['psi'] != 0.625 else 0.375, 'c': 3.0}))
+            pre = gen.rand_spec(rng, n_total=gen.effective_n(it['spec']) + 1, n_demes=1, n_epochs=2)
+            pre['model'] = other
+            it['prelude'] = [pre]
     # SFS accumulation curves on several points at once (points inside epochs, on boundaries, beyond the last change)
     for s in specs[: (3 if res.tier == 'quick' else 15)]:
         if s.get('start_time'):
